@@ -14,6 +14,9 @@ MAP = [  # (commit, property, hunt dir, note)
     ("f8c44a5", "C15", "C15/1", ""), ("f51d241", "C15", "C15/2", ""), ("24ce837", "C15", "C15/5", ""),
     ("208706c", "C12", "C12/1", "demo needs `--features jsonld` in crate sophia"), ("f32514d", "C12", "C12/2", "demo needs `--features jsonld` in crate sophia"),
     ("63736d6", "C20", "C20/1", ""), ("c2aa0e2", "C10", "C10/1", "demo must run with --release (debug builds hit the debug_assert first)"),
+    ("1022e6e", "C13", "../hunt2/C13/2", ""), ("101eae2", "C13", "../hunt2/C13/3", ""),
+    ("f0ec305", "C12", "../hunt2/C12/6", "demo needs `--features jsonld` in crate sophia"), ("de7209f", "C12", "../hunt2/C12/1", "demo needs `--features jsonld` in crate sophia"),
+    ("27785fa", "C06", "../hunt2/C06/1", ""), ("439a801", "C06", "../hunt2/C06/2", ""),
 ]
 
 def sh(cmd, cwd=WT):
